@@ -62,6 +62,9 @@ Record st := {
   noted : bool              (* the acquired lock is in self.locks *)
 }.
 
+(* what a process forked by the task body can do to the files of the job directory *)
+Inductive ceff := CTouchDone | CWriteFailed (c : Z) | CRmPid | CUnlock.
+
 Inductive eff :=
 | RegAtexit | UnregAtexit
 | SetTerm | SetInt | RestoreTerm | RestoreInt
@@ -70,7 +73,17 @@ Inductive eff :=
 | BodyBegin | BodyEnd (ok : bool)
 | TouchDone
 | WriteFailed (c : Z)
-| SetCleaned | RmPid | Unlock.
+| SetCleaned | RmPid | Unlock
+| Child (l : list ceff).   (* the body forks; l = what the child does to the job directory before it is gone *)
+
+Definition capply (s : st) (e : ceff) : st :=
+  let '(Build_st dn fl pd lk rn cp ax ht hi cl nt) := s in
+  match e with
+  | CTouchDone => Build_st true fl pd lk rn cp ax ht hi cl nt
+  | CWriteFailed c => Build_st dn (Some c) pd lk rn cp ax ht hi cl nt
+  | CRmPid => Build_st dn fl false lk rn cp ax ht hi cl nt
+  | CUnlock => s            (* fcntl locks belong to the process that took them: the parent keeps its lock *)
+  end.
 
 Definition apply (e : eff) (s : st) : st :=
   let '(Build_st dn fl pd lk rn cp ax ht hi cl nt) := s in
@@ -92,6 +105,7 @@ Definition apply (e : eff) (s : st) : st :=
   | SetCleaned => Build_st dn fl pd lk rn cp ax ht hi true nt
   | RmPid => Build_st dn fl false lk rn cp ax ht hi cl nt
   | Unlock => Build_st dn fl pd false rn cp ax ht hi cl nt
+  | Child l => fold_left capply l s
   end.
 
 Definition run_effs (es : list eff) (s : st) : st := fold_left (fun s e => apply e s) es s.
@@ -336,3 +350,81 @@ Definition shift (d : dir) (dh : option death) : option death :=
   | None => None
   | Some (g, k, c) => Some (g, length (upto_body (boot d)) + k, c)
   end.
+
+
+(* ================================================================ a body that forks
+   The task body forks (multiprocessing with the fork start method, os.fork, DataLoader workers).  The
+   child is a copy of the job process: the frames of TaskRunner.run - its try / except clauses - are
+   on its stack, self.locks is copied, the at-fork hook `remove_signal_handlers` has restored the signal
+   dispositions and unregistered the exit callback IN THE CHILD (the parent keeps its handlers and
+   its exit callback).  How the child leaves decides what it does to the job directory:
+     os._exit (multiprocessing)          nothing
+     sys.exit(0)                         except SystemExit, code 0: donepath.touch()
+     sys.exit(c), c <> 0                 handle_error(c): failure marker, cleanup (pid file, "release")
+     an exception nobody catches         except Exception: handle_error(1)
+   With fixes/C10-3.diff (fsafe = true) both except clauses re-raise in a process that is not the job.
+   The child's life is one moment of the body (the parent waits for it).                              *)
+Inductive cexit := CQuit | CExit (c : Z) | CRaise.
+
+Definition to_ceff (e : eff) : list ceff :=
+  match e with
+  | TouchDone => [CTouchDone] | WriteFailed c => [CWriteFailed c] | RmPid => [CRmPid] | Unlock => [CUnlock]
+  | _ => []
+  end.
+
+(* the private flags of the child once the at-fork hook has run *)
+Definition hooked (s : st) : st :=
+  {| done := done s; failed := failed s; pid := pid s; lock := lock s; runs := runs s;
+     completed := completed s; atexit := false; hterm := false; hint := false; cleaned := cleaned s;
+     noted := noted s |}.
+
+Definition child_effects (v : variant) (fsafe : bool) (ce : cexit) (s : st) : list ceff :=
+  if fsafe then [] else
+  match ce with
+  | CQuit => []
+  | CExit c => if (c =? 0)%Z then [CTouchDone] else flat_map to_ceff (handle_error v c (hooked s))
+  | CRaise => flat_map to_ceff (handle_error v 1 (hooked s))
+  end.
+
+Definition fork_step (v : variant) (fsafe : bool) (fk : option cexit) : blk :=
+  match fk with
+  | None => nop
+  | Some ce => fun s => [Child (child_effects v fsafe ce s)]
+  end.
+
+(* the runner with a body that forks once (fk = Some ...) between its beginning and its end *)
+Definition runner_f (v : variant) (fsafe : bool) (fk : option cexit) (o : outcome) : tblk :=
+  tseq (at_ CProp (emits [RegAtexit; SetTerm; SetInt]))
+ (tseq (at_ CTry (emits [Lock; NoteLock; TestDone]))
+ (tseq (fun s => if done s then []
+                 else tseq (at_ CTry (seq rmfile_failed
+                                          (seq (emit BodyBegin)
+                                               (seq (fork_step v fsafe fk) (emit (BodyEnd (success o)))))))
+                           (after_body v o) s)
+       (at_ CAtexit (exit_phase v)))).
+
+Definition trace_f (v : variant) (fsafe : bool) (fk : option cexit) (o : outcome) (d : dir) : list eff :=
+  map snd (runner_f v fsafe fk o (boot d)).
+
+Definition effects_f (v : variant) (fsafe : bool) (fk : option cexit) (o : outcome) (dth : option death) (d : dir) : list eff :=
+  match dth with
+  | None => trace_f v fsafe fk o d
+  | Some (g, k, c) =>
+      let pre := firstn k (trace_f v fsafe fk o d) in
+      pre ++ on_signal v g c (run_effs pre (boot d))
+  end.
+
+Definition launch_f (v : variant) (fsafe : bool) (d : dir) (fk : option cexit) (o : outcome) (dth : option death) : dir :=
+  die (run_effs (effects_f v fsafe fk o dth d) (boot d)).
+
+Definition history_f (v : variant) (fsafe : bool) (d : dir) (l : list (option cexit * outcome * option death)) : dir :=
+  fold_left (fun d x => launch_f v fsafe d (fst (fst x)) (snd (fst x)) (snd x)) l d.
+
+(* a child that leaves through os._exit, or no fork at all *)
+Definition wellbehaved (fk : option cexit) : bool :=
+  match fk with None | Some CQuit => true | _ => false end.
+
+(* the death arrives while the body runs: the next effect of the undisturbed run is the fork or the end of the body *)
+Definition in_body_f (v : variant) (fsafe : bool) (fk : option cexit) (o : outcome) (d : dir) (k : nat) : Prop :=
+  (exists b, nth_error (trace_f v fsafe fk o d) k = Some (BodyEnd b)) \/
+  (exists l, nth_error (trace_f v fsafe fk o d) k = Some (Child l)).
